@@ -4,12 +4,14 @@ import TunnoxModel.Spec.C14
 Line protocol for C14 (see harness/c14/main.go):
 
   run [asfound] pe <0|1> sh <0|1> cfg (default | custom <nP> p… <nS> s… <nSP> sp…) key <key>
-      init <c> <s> <p> ops <n> <op>… sch <m> <entry>…
+      init <c> <s> <p> ops <n> <op>… [nodes <n> <0|1>…] sch <m> <entry>…
   values  `-` (absent) | s<n> | i<n> | L | L<a>,<b>,…
   ops     get | ex | set:<val>:<ttl> | del | getl | app:<n> | rem:<n> | incr | exp:<ttl>
+          also setnx:<val>:<ttl> | hset:<val> | hget | hdel   (hash methods: the case key is <key>:<field>)
   entry   <tid> | <tid>!c | <tid>!s | <tid>!p      (fault on the cache / shared / persistent tier)
+          | E<node><c|s>                            (the local cache of <node> / the shared cache drops the entry)
 
-  obs:  th <k> <inv>:<ret>:<res>… fin <c> <s> <p> fget <res> tr <j> <ev>…
+  obs:  th <k> <inv>:<ret>:<res>… fin <c> <s> <p> fget <res> [c1 <val> fget1 <res>] tr <j> <ev>…
   res   ok | nf | err | inv | v=<val> | b=<0|1> | -        (`-` = has not returned)
   ev    <tid>/<c|s|p>/<act>/<out>   act: get | ex | set=<val>=<ttl> | del | incr
                                     out: miss | hit=<val> | ok | fail | b0 | b1
@@ -51,17 +53,29 @@ def parseOp (s : String) : Option Op :=
   | ["incr"] => some .incr
   | ["wbk"] => some .wbk
   | ["set", v, t] => do pure (.set (← parseVal1 v) (← t.toNat?))
+  | ["setnx", v, t] => do pure (.setnx (← parseVal1 v) (← t.toNat?))
+  | ["hset", v] => (parseVal1 v).map .hset
+  | ["hget"] => some .hget
+  | ["hdel"] => some .hdel
   | ["app", x] => x.toNat?.map .app
   | ["rem", x] => x.toNat?.map .rem
   | ["exp", t] => t.toNat?.map .exp
   | _ => none
 
 def parseEntry (s : String) : Option Entry :=
+  match s.toList with
+  | 'E' :: n :: t :: [] =>
+    -- eviction: E<node><c|s>
+    match (String.singleton n).toNat?, t with
+    | some k, 'c' => some ⟨k, none, some .cache⟩
+    | some k, 's' => some ⟨k, none, some .shared⟩
+    | _, _ => none
+  | _ =>
   match splitOnChar s '!' with
-  | [t] => t.toNat?.map (fun n => ⟨n, none⟩)
-  | [t, "c"] => t.toNat?.map (fun n => ⟨n, some .cache⟩)
-  | [t, "s"] => t.toNat?.map (fun n => ⟨n, some .shared⟩)
-  | [t, "p"] => t.toNat?.map (fun n => ⟨n, some .persistent⟩)
+  | [t] => t.toNat?.map (fun n => ⟨n, none, none⟩)
+  | [t, "c"] => t.toNat?.map (fun n => ⟨n, some .cache, none⟩)
+  | [t, "s"] => t.toNat?.map (fun n => ⟨n, some .shared, none⟩)
+  | [t, "p"] => t.toNat?.map (fun n => ⟨n, some .persistent, none⟩)
   | _ => none
 
 structure Case where
@@ -73,6 +87,8 @@ structure Case where
   p : Option Val
   ops : List Op
   sch : List Entry
+  nodes : List Nat := []
+  sh : Bool := false
 
 def defaultConfig (pe : Bool) : Config :=
   { PersistentPrefixes := Gen.hybrid.DefaultConfig.PersistentPrefixes
@@ -109,13 +125,22 @@ def parseBody (V : Variant) : List String → Option Case
     match rest with
     | "key" :: key :: "init" :: c :: s :: p :: "ops" :: rest => do
       let (ops, rest) ← takeCounted rest
+      let hh : Storage := { config := cfg, cache := some .cache, sharedCache := if sh then some .shared else none }
       match rest with
       | "sch" :: rest => do
         let (sch, _) ← takeCounted rest
-        pure { V := V
-               h := { config := cfg, cache := some .cache, sharedCache := if sh then some .shared else none }
+        pure { V := V, h := hh, sh := sh
                key := key, c := ← parseVal c, s := ← parseVal s, p := ← parseVal p
                ops := ← ops.mapM parseOp, sch := ← sch.mapM parseEntry }
+      | "nodes" :: rest => do
+        let (ns, rest) ← takeCounted rest
+        match rest with
+        | "sch" :: rest => do
+          let (sch, _) ← takeCounted rest
+          pure { V := V, h := hh, sh := sh, nodes := ← ns.mapM String.toNat?
+                 key := key, c := ← parseVal c, s := ← parseVal s, p := ← parseVal p
+                 ops := ← ops.mapM parseOp, sch := ← sch.mapM parseEntry }
+        | _ => none
       | _ => none
     | _ => none
   | _ => none
@@ -156,6 +181,7 @@ def parseTier : String → Option Tier
 def actStr : Act → String
   | .get => "get" | .ex => "ex" | .del => "del" | .incr => "incr"
   | .set v t => s!"set={valStr v}={t}"
+  | .setnx v t => s!"setnx={valStr v}={t}"
 
 def outStr : Outc → String
   | .miss => "miss" | .ok => "ok" | .fail => "fail"
@@ -168,6 +194,7 @@ def parseAct (s : String) : Option Act :=
   match splitOnChar s '=' with
   | ["get"] => some .get | ["ex"] => some .ex | ["del"] => some .del | ["incr"] => some .incr
   | ["set", v, t] => do pure (.set (← parseVal1 v) (← t.toNat?))
+  | ["setnx", v, t] => do pure (.setnx (← parseVal1 v) (← t.toNat?))
   | _ => none
 
 def parseOut (s : String) : Option Outc :=
@@ -182,12 +209,13 @@ def parseEv (s : String) : Option Ev :=
   | [t, tr, a, o] => do pure ⟨← t.toNat?, ← parseTier tr, ← parseAct a, ← parseOut o⟩
   | _ => none
 
-def obsStr (o : Obs) : String :=
+def obsStr (two : Bool) (o : Obs) : String :=
   let ths := o.ths.map (fun t => s!"{t.inv}:{t.ret}:{resStr t.res}")
   let evs := o.trace.map evStr
   " ".intercalate (["th", toString ths.length] ++ ths ++
-    ["fin", ovalStr o.fin.1, ovalStr o.fin.2.1, ovalStr o.fin.2.2, "fget", resStr (some o.fget),
-     "tr", toString evs.length] ++ evs)
+    ["fin", ovalStr o.fin.1, ovalStr o.fin.2.1, ovalStr o.fin.2.2, "fget", resStr (some o.fget)] ++
+    (if two then ["c1", ovalStr o.fin1, "fget1", resStr (some o.fget1)] else []) ++
+    ["tr", toString evs.length] ++ evs)
 
 def parseTh (s : String) : Option (Nat × Nat × Option Res) :=
   match splitOnChar s ':' with
@@ -202,29 +230,38 @@ def zipOps (ops : List Op) : List (Nat × Nat × Option Res) → List ThObs
     | o :: os => ⟨o, a, b, r⟩ :: zipOps os rest
     | [] => ⟨.wbk, a, b, r⟩ :: zipOps [] rest
 
+def parseTail (ops : List Op) (ths : List (Nat × Nat × Option Res)) (c s p fg : String)
+    (c1 : Option Val) (fg1 : Res) (rest : List String) : Option Obs := do
+  let (evs, _) ← takeCounted rest
+  let fg ← parseRes fg
+  pure { ths := zipOps ops ths, fin := (← parseVal c, ← parseVal s, ← parseVal p)
+         fget := ← fg, trace := ← evs.mapM parseEv, fin1 := c1, fget1 := fg1 }
+
 def parseObs (ops : List Op) : List String → Option Obs
   | "th" :: rest => do
     let (ths, rest) ← takeCounted rest
     let ths ← ths.mapM parseTh
     match rest with
-    | "fin" :: c :: s :: p :: "fget" :: fg :: "tr" :: rest => do
-      let (evs, _) ← takeCounted rest
-      let fg ← parseRes fg
-      pure { ths := zipOps ops ths, fin := (← parseVal c, ← parseVal s, ← parseVal p)
-             fget := ← fg, trace := ← evs.mapM parseEv }
+    | "fin" :: c :: s :: p :: "fget" :: fg :: "tr" :: rest => parseTail ops ths c s p fg none .nf rest
+    | "fin" :: c :: s :: p :: "fget" :: fg :: "c1" :: c1 :: "fget1" :: fg1 :: "tr" :: rest => do
+      let f1 ← parseRes fg1
+      parseTail ops ths c s p fg (← parseVal c1) (← f1) rest
     | _ => none
   | _ => none
 
+def Case.info (k : Case) : CaseInfo :=
+  { key := k.key, sh := k.sh, twoNode := k.nodes.any (· != 0), evicts := k.sch.any (·.evict.isSome) }
+
 def runModel (ts : List String) : String :=
   match parseCase ts with
-  | some k => obsStr (model k.V (route k.h k.key) k.c k.s k.p k.ops k.sch)
+  | some k => obsStr k.info.twoNode (modelN k.V (route k.h k.key) k.c k.s k.p k.ops k.nodes k.sch)
   | none => "bad-case"
 
 def runHolds (caseToks obsToks : List String) : String :=
   match parseCase caseToks with
   | some k =>
     match parseObs k.ops obsToks with
-    | some o => boolStr (holds (route k.h k.key) k.c k.s k.p o)
+    | some o => boolStr (holds (route k.h k.key) k.info k.c k.s k.p o)
     | none => "false"
   | none => "bad-case"
 
